@@ -153,6 +153,7 @@ func TestC06(t *testing.T) {
 				if v := base.Graph.Nodes[n].F[f]; v.K == "list" && len(v.L) > 0 && rapid.IntRange(0, 2).Draw(rt, label+"nth") == 0 {
 					fl.Kind = "nth"
 					fl.Index = rapid.IntRange(0, len(v.L)-1).Draw(rt, label+"idx")
+					fl.N = rapid.IntRange(0, 1).Draw(rt, label+"nthWithValue")
 				}
 			}
 			return fl
